@@ -1521,7 +1521,36 @@ func (c *Ctx) idxOK() {
 			desc := "read " + src(ie)
 			switch {
 			case written[ie]:
-				c.R.OKTrivial(name, "write "+src(ie), ie.Pos(), "table construction")
+				// who may write the table, and when: only the constructor, and only a name it has just found absent — the
+				// table then holds exactly the (distinct) field names, which equality, unification, member access and
+				// the back ends' by-name accessors all assume (an alias entry, or a second field of the same name, makes
+				// GetField answer for a name the other operand does not have)
+				if name != "types.Obj" {
+					c.R.Bad(name, "write "+src(ie), ie.Pos(), "the name -> position table of an object type is written outside its constructor types.Obj: it no longer holds exactly the field names (a name that is not a field resolves; equality by GetField stops being symmetric)")
+					return true
+				}
+				if g == nil {
+					g = c.buildCFG(fd.Body)
+				}
+				bs, ks := sx(unparen(base)), sx(unparen(ie.Index))
+				fresh := false
+				for _, pc := range g.condsAt(ie) {
+					e := unparen(pc.e)
+					neg := !pc.pos
+					if u, isU := e.(*ast.UnaryExpr); isU && u.Op == token.NOT {
+						e, neg = unparen(u.X), !neg
+					}
+					id, isID := e.(*ast.Ident)
+					if !isID || !neg {
+						continue
+					}
+					for _, lk := range lookups {
+						if lk.okObj == c.objOf(id) && lk.base == bs && lk.key == ks {
+							fresh = true
+						}
+					}
+				}
+				c.R.Check(fresh, name, "write "+src(ie)+" of a name just found absent", ie.Pos(), "table construction: the store is reached only where the comma-ok lookup of the same name failed (duplicates are refused)", "the constructor enters a name into the table without first requiring it to be absent: an object type can carry two fields of one name (the later shadows the earlier in every by-name access, the literal `{a: 1, a: \"x\"}` type-checks)")
 				return true
 			case commaOK[ie]:
 				c.R.OK(name, desc, ie.Pos(), "comma-ok form: absence is distinguished from position 0")
